@@ -265,7 +265,7 @@ def check_C16(work, prop, tier, seed, t0):
     for procs in ([2, 4, 16] if not q else [4, 16]):
         for s in range(1 if q else 3):
             jobs.append(Job("conc:procs=%d:seed=%d" % (procs, seed + s), "race",
-                            ["conc", "-seed", str(seed + s), "-g", str(12 if q else 24), "-len", str(600 if q else 1500), "-procs", str(procs)],
+                            ["conc", "-seed", str(seed + s), "-g", str(12 if q else 24), "-len", str(4000 if q else 12000), "-procs", str(procs)],
                             env={"GORACE": "halt_on_error=0 exitcode=66"}, pattern=".*.ndjson"))
     return env_check(work, prop, tier, seed, t0, jobs, ["Inv_C01", "Inv_C02", "Inv_C03", "Inv_C04", "Inv_C05", "Inv_C06", "Inv_C11", "Inv_C14"], model_runs,
                      "race-detector build; G goroutines with heavy grow/shrink churn on private trees of mixed kinds (shared node pools busy), then G "
@@ -297,7 +297,7 @@ def check_C18(work, prop, tier, seed, t0):
     model_runs = [env_model(work)]
     vts = ["int", "string", "ptr", "bytes", "zero", "big", "rich"]
     kinds = [("alpha/string", "random"), ("uint32", "random"), ("float64", "random"), ("collation/string/und", "text"), ("compound/u8+str", "tuple"),
-             ("alpha/bytes", "vlong")]
+             ("alpha/bytes", "vlong"), ("collation/bytes/und", "text")]
     if not q:
         kinds += [("alpha/bytes", "long"), ("int64", "random"), ("int8", "fan1"), ("float32", "random"), ("collation/bytes/sv", "text"),
                   ("collation/runes/und", "text"), ("uint8", "fan1")]
